@@ -1253,7 +1253,11 @@ NATIVE = [("liveness-under-schedules", N25.explore)]
 ASSUMPTIONS = [
     "INITIALISATION IS NOT PROVED: `analysis.initialize(op)` (SparseBackwardDataFlowAnalysis.initialize: the stack walk that visits every op once; "
     "DeadCodeAnalysis.initialize: entry block executable) is ASSUMED to establish the loop invariant I1/I2/J/I4/K; only the bounded stand-in exercises it "
-    "(both load orders of the two analyses)",
+    "(both load orders of the two analyses).  NOTE: the invariant quantifies over EVERY operation that is `active` (has operands, no regions/successors, executable or no parent "
+    "block), not only over the operations of the analysed tree; initialisation can establish it only for ops it walks, so the assumed initialisation contract is STRONGER than "
+    "what the code provides for operations outside the tree (e.g. detached ops).  The conclusions are meant for - and the bounded stand-in checks them on - the ops of the "
+    "analysed function; restricting the proof to tree ops needs the extra invariant `every pending item and every dependent of a Liveness lattice is before(op) for an op of "
+    "the tree`, which the callee contracts of on_update / enqueue do not yet carry",
     "state table abstraction: self.get_or_create_state(v, Liveness) is read as LAT(v), a function of v, and a state that does not exist yet as a dead state "
     "without dependents; justified by (not derived from) the discharged contract of DataFlowSolver.get_or_create_state/lookup_state",
     "analyses other than the liveness analysis that share the solver (DeadCodeAnalysis) are ASSUMED not to write Liveness lattices or Executable flags "
